@@ -46,6 +46,52 @@ def run(ctx: Ctx):
     from nuspacesim.utils.interp import grid_slice_interp, vec_1d_interp
     rng = ctx.rng
     tmp = tempfile.mkdtemp(prefix="c18_", dir=os.environ.get("TMPDIR", "/tmp"))
+    # ---------------- (a0) several grids in one HDF5 file (how the shipped table files are produced: /pexit_regen next to
+    # /pexit_no_regen), written one after the other, one of them replaced later: every grid reads back as it was last written
+    def grids_equal(a, b):
+        return (np.array_equal(np.asarray(a.data), np.asarray(b.data), equal_nan=True) and list(a.axis_names) == list(b.axis_names)
+                and len(a.axes) == len(b.axes) and all(np.array_equal(x, y) for x, y in zip(a.axes, b.axes)))
+    for t in range(12 if ctx.thorough else 3):
+        pth = os.path.join(tmp, f"multi{t}.h5")
+        if os.path.exists(pth):
+            os.remove(pth)
+        paths = ["/a", "/b/c", "/d"][: 2 + t % 2]
+        cur = {}
+        ops = [(q, None) for q in paths] + [(paths[int(rng.integers(0, len(paths)))], True), (paths[0], True)]
+        hist = []
+        try:
+            for q, ow in ops:
+                data, axes, names = rand_grid(rng, "hdf5")
+                while not all(nm.isascii() and nm.isprintable() and nm for nm in names):
+                    data, axes, names = rand_grid(rng, "hdf5")
+                g_ = NssGrid(data, axes, names)
+                if ow is None:
+                    g_.write(pth, path=q, format="hdf5")
+                else:
+                    g_.write(pth, path=q, format="hdf5", overwrite=True)
+                cur[q] = g_
+                hist.append(f"write {q}" + (" overwrite=True" if ow else ""))
+                ctx.count("hdf5_multi_grid_writes")
+                for q2, want in cur.items():
+                    try:
+                        back = NssGrid.read(pth, path=q2, format="hdf5")
+                        ok = grids_equal(want, back)
+                        err = None
+                    except Exception as e:  # noqa
+                        ok, err = False, f"{type(e).__name__}: {str(e)[:100]}"
+                    ctx.case(("hdf5-multi", t, len(hist), q2), None)
+                    if not ok:
+                        ctx.violation("NssGrid.write/read", "hdf5-other-grid-in-the-file-lost",
+                                      f"after `{hist[-1]}` the grid stored under {q2} no longer reads back as written" + (f" ({err})" if err else ""),
+                                      {"history": list(hist), "grid": q2})
+                        raise StopIteration
+        except StopIteration:
+            pass
+        except Exception as e:  # noqa
+            ctx.violation("NssGrid.write/read", "hdf5-raises", f"{type(e).__name__}: {str(e)[:120]} after {hist}", {"history": list(hist)})
+        finally:
+            if os.path.exists(pth):
+                os.remove(pth)
     # ---------------- (a) file round trip
     n_io = 300 if ctx.thorough else 60
     for fmt, ext in (("hdf5", "h5"), ("fits", "fits")):
@@ -193,6 +239,42 @@ def run(ctx: Ctx):
             if not close(ref, got[r], 1e-9, 1e-12):
                 ctx.violation("vec_1d_interp", "not-piecewise-linear", "differs from ordinary piecewise-linear interpolation",
                               {"xs": rows[r].tolist(), "ys": ys.tolist(), "x": float(xq[r]), "got": float(got[r]), "expected": float(ref)})
+    # ---------------- (c') ill-spaced rows: two neighbouring nodes a few ulp .. 1e-9 apart (a CDF that is almost a plateau),
+    # rows far from the origin (offset abscissae), query strictly inside the tight gap.  The reference is the exact rational
+    # two-point formula; a correctly written blend is accurate to a few ulp of the ordinates whatever the spacing.
+    from fractions import Fraction
+    n_ill = 400 if ctx.thorough else 60
+    for t in range(n_ill):
+        n = int(rng.integers(3, 9))
+        ys = np.sort(rng.uniform(0, 1, n)) + np.arange(n) * 1e-3
+        kind = t % 3
+        if kind < 2:
+            xs = np.sort(rng.uniform(0.05, 1.0, n))
+            k = int(rng.integers(0, n - 1))
+            gap = [2.0 ** -50, 1e-14, 1e-12, 1e-9][int(rng.integers(0, 4))] if kind == 0 else float(4 * np.spacing(xs[k]))
+            xs[k + 1:] += (xs[k] * (1 + gap) if kind == 0 else xs[k] + gap) - xs[k + 1]
+            xs = np.maximum.accumulate(xs)
+            x = float(xs[k] + rng.uniform(0.25, 0.75) * (xs[k + 1] - xs[k]))
+        else:
+            base = float(10 ** rng.uniform(6, 9))
+            xs = base + np.cumsum(rng.uniform(0.05, 0.2, n))
+            k = int(rng.integers(0, n - 1))
+            x = float(xs[k] + rng.uniform(0.1, 0.9) * (xs[k + 1] - xs[k]))
+        if not (xs[k] < x < xs[k + 1]):
+            continue
+        try:
+            got = float(np.asarray(vec_1d_interp(xs[None, :], ys, np.array([x])), dtype=np.float64)[0])
+        except Exception as ex:  # noqa
+            ctx.violation("vec_1d_interp", "raises-on-valid-batch", f"{type(ex).__name__}: {str(ex)[:120]}", {"xs": xs.tolist(), "ys": ys.tolist(), "x": x})
+            continue
+        F = Fraction
+        ref = float(F(ys[k]) + (F(x) - F(xs[k])) * (F(ys[k + 1]) - F(ys[k])) / (F(xs[k + 1]) - F(xs[k])))
+        ctx.case(("vec-ill", t), None)
+        ctx.count(("rows_tight_gap", "rows_few_ulp_gap", "rows_offset")[kind])
+        if not abs(got - ref) <= 1e-13 * max(abs(ys[k]), abs(ys[k + 1])):
+            ctx.violation("vec_1d_interp", "not-piecewise-linear:ill-spaced-row",
+                          f"differs from ordinary piecewise-linear interpolation by {abs(got - ref):.3g} (ordinate step {ys[k + 1] - ys[k]:.3g}) on a row whose bracketing nodes are {xs[k + 1] - xs[k]:.3g} apart",
+                          {"xs": [repr(float(v_)) for v_ in xs], "ys": ys.tolist(), "x": repr(x), "got": got, "expected": ref})
     # ---------------- (d) every node of every shipped table (numpy, independent of the Lean data theorems)
     for v, tau in taus.items():
         g, p = tau.tau_cdf_grid, tau.pexit_grid
